@@ -58,6 +58,7 @@ def gen_params(rng):
         "n_chrom": rng.choice([1, 1, 2]),
         "chrom_len": 2500,
         "n_var": rng.randint(6, 22),
+        "pos1_prob": 0.15,
         "kinds": ["snv"],
         "samples": samples,
         "pedigree": ped,
